@@ -461,6 +461,16 @@ def _header_parts(st):
     return [st]
 
 
+def untag(e):
+    """remove the `@line` version tags expand() puts on re-defined names (for comparisons at one program point)"""
+    class T(ast.NodeTransformer):
+        def visit_Name(s, n):
+            if '@' in n.id:
+                return ast.copy_location(ast.Name(id=n.id.split('@')[0], ctx=n.ctx), n)
+            return n
+    return T().visit(copy.deepcopy(e))
+
+
 _views = {}
 
 
